@@ -64,9 +64,44 @@ def check_selector(fi, arm, rule):
     return name
 
 
+_SELECT_HELPERS = {}      # name -> FunctionDef of module-level helpers of pysnark.array that ARE a selection (filled by rule_access)
+
+
+def _is_select_helper(fn):
+    """def h(sel, new, old): every return is  if_then_else(sel, new, old)  |  old  where the test says new == old (nothing to
+    select)  |  the same helper applied cell by cell to two rows of equal shape:  Array([h(sel, n, o) for n, o in zip(new.arr, old.arr)])"""
+    ps = [a.arg for a in fn.args.args]
+    if len(ps) != 3 or fn.args.vararg or fn.args.kwarg:
+        return False
+    s, n, o = ps
+    rets = [r for r in ast.walk(fn) if isinstance(r, ast.Return)]
+    if not rets:
+        return False
+    for r in rets:
+        t = norm(r.value) if r.value is not None else ""
+        if t in ("if_then_else(%s, %s, %s)" % (s, n, o), "%s.__if_then_else__(%s, %s)" % (n, o, s)):
+            continue
+        if t == o and any(isinstance(p_, ast.If) and any(x in norm(p_.test).replace(" ", "") for x in ("%s==%s" % (n, o), "%s==%s" % (o, n), "%sis%s" % (n, o), "%sis%s" % (o, n)))
+                          and any(r is x for st in p_.body for x in ast.walk(st)) for p_ in parents(r)):
+            continue
+        v = r.value
+        if isinstance(v, ast.Call) and norm(v.func) in ("Array", "list", "tuple") and len(v.args) == 1:
+            v = v.args[0]
+        if isinstance(v, (ast.ListComp, ast.GeneratorExp)) and len(v.generators) == 1 and not v.generators[0].ifs \
+                and isinstance(v.generators[0].target, ast.Tuple) and len(v.generators[0].target.elts) == 2:
+            a_, b_ = (norm(x) for x in v.generators[0].target.elts)
+            if norm(v.generators[0].iter).replace(" ", "") in ("zip(%s.arr,%s.arr)" % (n, o), "zip(%s,%s)" % (n, o)) \
+                    and norm(v.elt) == "%s(%s, %s, %s)" % (fn.name, s, a_, b_):
+                continue
+        return False
+    return True
+
+
 def selection_of(e):
     """(cond, value if cond, value otherwise) of a selection, however it is spelled:
-       if_then_else(c, t, f)  |  t.__if_then_else__(f, c)  |  f + c * (t - f)"""
+       if_then_else(c, t, f)  |  t.__if_then_else__(f, c)  |  f + c * (t - f)  |  a selection helper h(c, t, f)"""
+    if isinstance(e, ast.Call) and isinstance(e.func, ast.Name) and e.func.id in _SELECT_HELPERS and len(e.args) == 3 and not e.keywords:
+        return e.args[0], e.args[1], e.args[2]
     if isinstance(e, ast.Call) and norm(e.func).split(".")[-1] == "if_then_else" and len(e.args) == 3 and not e.keywords:
         return e.args[0], e.args[1], e.args[2]
     if isinstance(e, ast.Call) and isinstance(e.func, ast.Attribute) and e.func.attr == "__if_then_else__" and len(e.args) == 2:
@@ -85,6 +120,10 @@ def rule_access(repo, r1, r2, r3):
     gi, si = ci.methods.get("__getitem__"), ci.methods.get("__setitem__")
     if gi is None or si is None:
         raise AnalysisError("Array.__getitem__/__setitem__ not found")
+    _SELECT_HELPERS.clear()
+    for s_ in ci.module.tree.body:
+        if isinstance(s_, ast.FunctionDef) and _is_select_helper(s_):
+            _SELECT_HELPERS[s_.name] = s_
     for fi in (gi, si):
         arm = secret_arm(fi)
         if arm is None:
@@ -139,6 +178,28 @@ def rule_access(repo, r1, r2, r3):
             good = False
             from ..seqs import resolve_at
             val = fi.params[2]
+            # the whole content replaced at once:  self.arr[:] = [SELECTION(position) for every position]
+            from ..seqs import seq_of as _sq15
+            for st in arm.body:
+                if isinstance(st, ast.Assign) and len(st.targets) == 1 and norm(st.targets[0]) in ("self.arr[:]", "self.arr") \
+                        and isinstance(st.value, ast.ListComp):
+                    sq = _sq15(st.value, st, 0)
+                    if sq is None or sq.base != "self.arr" or sq.rev or sq.order is not None:
+                        continue
+                    good = True
+                    from ..flatten import _Subst as _S15
+                    from ..loader import clone as _c15
+                    # positions are walked through range(len(self.arr)): the element at the position is self.arr[__i0]
+                    v = sq.elt
+                    selc = selection_of(v)
+                    want_c = ("%s == __i0" % item, "__i0 == %s" % item)
+                    cond_txt = norm(selc[0]) if selc is not None else ""
+                    cond_txt = cond_txt.replace("%s[__i0]" % name, "%s == __i0" % item)      # the selector checked by R-C15-1
+                    if selc is not None and cond_txt in want_c and norm(selc[1]) == val and norm(selc[2]) in ("__e0", "self.arr[__i0]"):
+                        r2.ok(fi.loc(st), fi.fq, norm(st)[:100], "every position takes the new value iff its selector is set, else keeps its own")
+                    else:
+                        r2.violation(fi.loc(st), fi.fq, norm(st)[:100], "per-position selection is not select(selector[ix], new, old[ix]) "
+                                     "over every position", "%s/write" % fi.qual)
             for lp in loops:
                 # every store into self.arr inside the loop, with index and value expressed in the position __i0 / the element
                 # __e0 of self.arr the loop is at (however the loop is written: range(len), enumerate, zip)
